@@ -126,7 +126,9 @@ fn roundtrip_ty<Ty: EdgeType, Ix: IndexType + Serialize + DeserializeOwned>(c: &
     let (j, b) = via(&sg, "StableGraph -> StableGraph")?;
     same(&j, &m, "StableGraph round trip through JSON")?;
     same(&b, &m, "StableGraph round trip through bincode")?;
-    // a second generation is still identical (free lists rebuilt): use it a little
+    // the deserialised graphs stay consistent under further use (free lists rebuilt): follow-up script
+    accepted_stable(j.clone(), "StableGraph after a JSON round trip")?;
+    accepted_stable(b.clone(), "StableGraph after a bincode round trip")?;
     let mut j2 = j.clone();
     let x = j2.add_node([1, 1]);
     ck!(!m.node_live(x.index()), "roundtrip-reuses-live-index", "add_node after a JSON round trip returned the live index {}", x.index());
@@ -237,16 +239,17 @@ pub fn r_run(c: &RCase) -> Outcome {
                 let g: GraphMap<i32, i32, $ty> = to_graphmap(&s, |w| w);
                 let (j, b) = via(&g, "GraphMap")?;
                 for r in [&j, &b] {
-                    let mut n1: Vec<i32> = r.nodes().collect();
-                    let mut n0: Vec<i32> = g.nodes().collect();
-                    n1.sort();
-                    n0.sort();
-                    ck!(n1 == n0, "graphmap-roundtrip-nodes", "GraphMap nodes after the round trip: {n1:?} vs {n0:?}");
-                    let mut e1: Vec<(i32, i32, i32)> = r.all_edges().map(|(x, y, w)| (x, y, *w)).collect();
-                    let mut e0: Vec<(i32, i32, i32)> = g.all_edges().map(|(x, y, w)| (x, y, *w)).collect();
-                    e1.sort();
-                    e0.sort();
-                    ck!(e1 == e0, "graphmap-roundtrip-edges", "GraphMap edges after the round trip: {e1:?} vs {e0:?}");
+                    // iteration order = the compact node / edge numbering: part of what is observable
+                    let n1: Vec<i32> = r.nodes().collect();
+                    let n0: Vec<i32> = g.nodes().collect();
+                    ck!(n1 == n0, "graphmap-roundtrip-nodes", "GraphMap nodes (in iteration order) after the round trip: {n1:?} vs {n0:?}");
+                    let e1: Vec<(i32, i32, i32)> = r.all_edges().map(|(x, y, w)| (x, y, *w)).collect();
+                    let e0: Vec<(i32, i32, i32)> = g.all_edges().map(|(x, y, w)| (x, y, *w)).collect();
+                    ck!(e1 == e0, "graphmap-roundtrip-edges", "GraphMap edges (in iteration order) after the round trip: {e1:?} vs {e0:?}");
+                    ck!(serde_json::to_string(r).unwrap() == serde_json::to_string(&g).unwrap(), "graphmap-roundtrip-restream", "serializing the round-tripped GraphMap gives a different stream");
+                    if let Err(e) = graphmap_consistent(r) {
+                        return fail("C17/accepted-graphmap-inconsistent", format!("GraphMap after a round trip: {e}"));
+                    }
                     for x in g.nodes() {
                         let mut a1: Vec<i32> = r.neighbors(x).collect();
                         let mut a0: Vec<i32> = g.neighbors(x).collect();
@@ -521,16 +524,20 @@ fn accepted_stable<Ty: EdgeType, Ix: IndexType>(mut g: StableGraph<W, W, Ty, Ix>
             same(&g, &m, &format!("{what}, after add_node #{k}"))?;
         }
         let live = m.live_nodes();
-        if let (Some(&a), Some(&b)) = (live.first(), live.last()) {
-            if !(m.edges.len() + 1 >= lim && m.edge_count() == m.edges.len()) {
-                let w = [88, 0];
+        if let (Some(&first), Some(&last)) = (live.first(), live.last()) {
+            // several insertions: the rebuilt edge free list is walked further than its head
+            for (k, (a, b)) in [(first, last), (last, first), (first, first)].into_iter().enumerate() {
+                if m.edges.len() + 1 >= lim && m.edge_count() == m.edges.len() {
+                    break;
+                }
+                let w = [88, k as u32];
                 let e = g.add_edge(NodeIndex::new(a), NodeIndex::new(b), w).index();
-                ck!(!m.edge_live(e), "accepted-graph-reuses-live-edge", "{what}: add_edge on the accepted graph returned the live index {e}");
+                ck!(!m.edge_live(e), "accepted-graph-reuses-live-edge", "{what}: add_edge #{k} on the accepted graph returned the live index {e}");
                 while m.edges.len() <= e {
                     m.edges.push(None);
                 }
                 m.edges[e] = Some(MEdge { w, src: a, dst: b, seq: None });
-                same(&g, &m, &format!("{what}, after add_edge"))?;
+                same(&g, &m, &format!("{what}, after add_edge #{k}"))?;
             }
         }
         for a in m.live_nodes() {
